@@ -280,6 +280,23 @@ func simC13v4(c *sim.Ctx) {
 		for i := c.Draw(4); i > 0; i-- {
 			cuts = append(cuts, 8*(1+c.Draw(n/8)))
 		}
+		// (every single fragment is a possible IP packet: header + piece <= 65535,
+		// so a piece that is too long gets one more cut in its middle)
+		for again := true; again; {
+			again = false
+			sort.Ints(cuts)
+			prev := 0
+			for _, cu := range append(append([]int(nil), cuts...), n) {
+				if cu-prev > 65535-ihl*4 {
+					cuts = append(cuts, (prev+(cu-prev)/2)&^7)
+					again = true
+					break
+				}
+				if cu > prev {
+					prev = cu
+				}
+			}
+		}
 		sort.Ints(cuts)
 		prev := 0
 		t += 400_000
